@@ -1039,6 +1039,9 @@ class Wtp:
         need_pre_expand=excluded.need_pre_expand, model=excluded.model""",
             (title, namespace_id, body, redirect_to, need_pre_expand, model),
         )
+        # get_page() is memoised; a lookup made before this call (also a
+        # negative one) must not hide the page that was just stored
+        self.get_page.cache_clear()
 
     def analyze_templates(
         self,
